@@ -88,7 +88,7 @@ def main():
                      "kind_free_text": "deterministic simulation / seeded history search on a shared choice-stream kernel (simkit/)"}
                     for n, p in sorted(engines.items())],
         "checks": checks,
-        "notes": "See DESIGN.md. Exit codes: 0 held, 1 VIOLATION (replay confirmed in a fresh interpreter), 2 HARNESS-ERROR, 3 HARNESS-TIMEOUT. known_findings.json lists genuine defects (all repaired by fix: commits in /repo).",
+        "notes": "See DESIGN.md. Exit codes: 0 held, 1 VIOLATION (replay confirmed in a fresh interpreter), 2 HARNESS-ERROR, 3 HARNESS-TIMEOUT. known_findings.json lists genuine defects: 17 repaired by fix: commits in /repo (status fixed), one recorded (status known: the C08 check prints KNOWN-FINDING lines for its six probe inputs and exits 0).",
         "not_applicable": [{"property_id": k, "reason": v} for k, v in sorted(NA.items())],
     }
     with open(os.path.join(HERE, "MANIFEST.json"), "w") as f:
